@@ -3,6 +3,8 @@
 package main
 
 import (
+	"time"
+	"strconv"
 	"fmt"
 	"io"
 	"log/slog"
@@ -35,6 +37,20 @@ func main() {
 	slog.SetDefault(slog.New(slog.NewTextHandler(io.Discard, nil)))
 	c := core.New(id, tier)
 	c.Replay = replay
+	// watchdog: a check that does not come back (a change to the library that loops where the drivers have no time-out of
+	// their own) ends as an infrastructure failure - exit 2 - instead of running for ever. Budgets are several times the
+	// measured duration of the slowest check of the tier under load; VERIF_WATCHDOG_MIN overrides.
+	budget := 60 * time.Minute
+	if tier == "thorough" {
+		budget = 6 * time.Hour
+	}
+	if v, err := strconv.Atoi(os.Getenv("VERIF_WATCHDOG_MIN")); err == nil && v > 0 {
+		budget = time.Duration(v) * time.Minute
+	}
+	time.AfterFunc(budget, func() {
+		fmt.Fprintf(os.Stderr, "INFRA: %s %s did not finish within %s\n", id, tier, budget)
+		os.Exit(2)
+	})
 	defer func() {
 		if r := recover(); r != nil {
 			// a panic in the harness itself is an infrastructure problem, never a verdict
